@@ -1,3 +1,4 @@
+import Rp2.Props.Tables.Loops
 import Rp2.Proofs.ComputeWindow
 import Rp2.Proofs.PropsA
 /-! # C10 — date filters only hide rows; they never change the figures shown -/
@@ -37,4 +38,12 @@ theorem model_from_date_only_hides (asset : String) (acctName : Nat → String) 
     cd.bals = cd0.bals ∧ cd.price = cd0.price ∧ cd.inRun = cd0.inRun ∧ cd.outRun = cd0.outRun ∧ cd.intraRun = cd0.intraRun ∧
     cd.fracs = cd0.fracs.filter (fun n => decide (d ≤ n.f.ev.ts.day)) :=
   compute_from_date_only_hides asset acctName period allowNeg d toD sched ins outs intras cd cd0 h h0
+
+/-- **tie to the source (translator)**: `EntrySetIterator.__next__`, as translated from the Python source on this run, yields exactly the
+    model's window `viewOf` — the entries up to (not including) the first one dated after the to-date, without those dated before the
+    from-date; both bounds inclusive, dates being the entries' own local dates.  Every filtered table, summary and report is read through it. -/
+theorem source_iterator_is_window {α : Type} (day utcDay : α → Int) (fromD toD : Int) (l : List α) :
+    drain (Gen.L.iterNext day utcDay fromD toD) (l.length + 1) l = viewOf day (some fromD) (some toD) l :=
+  Tables.iterator_is_window day utcDay fromD toD l (l.length + 1) (by omega)
+
 end Rp2.C10
